@@ -120,7 +120,7 @@ func perms(n int) [][]int {
 }
 
 func Run(r *core.Run) {
-	r.Rule = "create requests: patch lists of length 1-2 over all 8 actions (+ 2 patches with unusually spelled URIs) x anchor origin {absent,string,object,number beyond 2^64,object with a number beyond 2^53} x type {absent,set} x hash code x multihash configuration {[18],[19],[18,19],[19,18]} x 2 namespaces; " +
+	r.Rule = "create requests: patch lists of length 1-2 over all 8 actions (+ 2 patches with unusually spelled URIs) x anchor origin {absent,string,object,number beyond 2^64,object with a number beyond 2^53, empty string, false, 0, [], {}} x type {absent,set} x hash code x multihash configuration {[18],[19],[18,19],[19,18]} x 2 namespaces; " +
 		"(i) suffix = mh(first configured algorithm, JCS(suffix data)), id = namespace:suffix; (ii) every member order of every object (<= 4! each), whitespace at every token boundary (<= 2 insertions), \\u spellings: same DID; " +
 		"(iii) every single-field modification of suffix data or delta, and every string of the delta respelled (case, scheme case, blanks, empty fragment, percent-escape case) and every number of the delta replaced by its neighbouring doubles, +1 and whole numbers beyond 2^64: DID changes or request rejected; distinct = distinct request texts; non-trivial = all"
 	r.Assumptions = []string{"reference suffix from ref/mh + ref/jcs over the suffix data model {deltaHash, recoveryCommitment, anchorOrigin, type}", "unknown extra members are out of scope (dropped by the decoder by design; rejected on the long-form path, C17)"}
@@ -143,7 +143,9 @@ func Run(r *core.Run) {
 	// (the anchor origin is author-chosen JSON of any type; whole numbers beyond 2^53 and 2^64 exercise the number formatting of the canonical form)
 	origins := []any{nil, "origin.example", M{"a": 1.0, "b": []any{"x"}}, 2e19, M{"n": []any{4611686018427387904.0, 0.1}},
 		"line\u2028separator\u2029 & <html> \u007f",                                          // characters that JSON writers other than JCS escape
-		M{"\ufb33": 1.0, "\U0001F600": 2.0, "\ufb33a": M{"\U0001F600a": "x", "\uffff": "y"}}} // member names whose UTF-16 order differs from their code point order
+		M{"\ufb33": 1.0, "\U0001F600": 2.0, "\ufb33a": M{"\U0001F600a": "x", "\uffff": "y"}}, // member names whose UTF-16 order differs from their code point order
+		// values that are "empty" in some sense but present all the same: they are part of the suffix data and of the DID
+		"", false, 0.0, []any{}, M{}}
 	rec, upd := keys.New("Ed25519", 81), keys.New("P-256", 81)
 	type reqT struct {
 		label string
@@ -298,7 +300,7 @@ func Run(r *core.Run) {
 		}{
 			{[]string{"suffixData", "recoveryCommitment"}, []any{ops.Commitment(other, 18), ops.Commitment(other, 19)}},
 			{[]string{"suffixData", "deltaHash"}, []any{ops.HashOf(M{"x": 1.0}, 18), ops.HashOf(M{"x": 1.0}, 19)}},
-			{[]string{"suffixData", "anchorOrigin"}, []any{"other-origin", M{"a": 2.0}, []any{"x"}, nil, 2e19, 3e19, 18446744073709551616.0, 9007199254740993.0, M{"n": []any{4611686018427388928.0, 0.1}}, M{"n": []any{4611686018427387904.0, 0.2}}}},
+			{[]string{"suffixData", "anchorOrigin"}, []any{"other-origin", M{"a": 2.0}, []any{"x"}, nil, "", false, 0.0, []any{}, M{}, 2e19, 3e19, 18446744073709551616.0, 9007199254740993.0, M{"n": []any{4611686018427388928.0, 0.1}}, M{"n": []any{4611686018427387904.0, 0.2}}}},
 			{[]string{"suffixData", "type"}, []any{"y", "xx", nil}},
 			{[]string{"delta", "updateCommitment"}, []any{ops.Commitment(other, 18), ops.Commitment(other, 19)}},
 		} {
